@@ -756,6 +756,16 @@ def _c10() -> List[Obl]:
             out.append(Obl(id=f"c10.grid.{mech}.{E.upper()}", prop="C10", engine="native", target=f"c10_grid:c10_grid_{mech}_{E}", kind="bounded",
                            bound="concrete execution: all 51 identifiers x 11 values (0,1,2,5,7,77,1000,65535,2^20-1,2^32+5,2^40+7), 5 preceding bits",
                            fns=[what + " for every identifier"]))
+    all_ids = (["unary", "gamma", "delta", "omega", "vbyte_be", "vbyte_le"] + [f"zeta{k}" for k in range(2, 11)] + [f"rice{k}" for k in range(1, 11)]
+               + [f"pi{k}" for k in range(1, 11)] + [f"golomb{k}" for k in (3, 5, 6, 7, 9, 10)] + [f"exp_golomb{k}" for k in range(1, 11)])
+    for hm, E in (("hbe", "BE"), ("hle", "LE")):
+        for r in all_ids:
+            if r in reps:
+                continue
+            for mech in ("codes_enum", "const", "func"):
+                kind = "bounded" if (r == "unary" or r.startswith("rice") or r.startswith("golomb")) else "complete"
+                out.append(Obl(id=f"c10.all_values.{mech}.{r}.{E}", prop="C10", engine="kani", target=f"obl_c10x::{hm}::sym_{mech}_{r}", tier="thorough", kind=kind,
+                               bound="codeword must fit the 256-bit model" if kind == "bounded" else "", fns=[f"dispatch of {r} through {mech}: read, write, len for every value"]))
     for hm, E in (("hbe", "BE"), ("hle", "LE")):
         for r in reps:
             for mech in ("codes_enum", "const", "func"):
